@@ -345,7 +345,14 @@ class ODLDecoder(PVLDecoder):
                 )
                 if gd["sign"] == "-":
                     offset = -1 * offset
-                return dt.replace(tzinfo=timezone(offset))
+                try:
+                    return dt.replace(tzinfo=timezone(offset))
+                except TypeError:
+                    # Only times and datetimes can carry a time zone,
+                    # a date (or a leap second string) cannot.
+                    raise ValueError(
+                        f'"{gd["dt"]}" cannot take a time zone offset.'
+                    )
             raise ValueError
 
     def decode_non_decimal(self, value: str) -> int:
